@@ -1,0 +1,14 @@
+//go:build !verif
+
+package runtime
+
+import (
+	"github.com/smarthome-go/homescript/v3/homescript/compiler"
+	"github.com/smarthome-go/homescript/v3/homescript/runtime/value"
+)
+
+func vh(ev string, core int64, arg string) {}
+
+func vhInstr(core *Core, instruction compiler.Instruction) {}
+
+func vhKind(i *value.VmInterrupt) string { return "" }
